@@ -1,9 +1,37 @@
-"""Witness search for failed Verus obligations: native evaluation of the real function on small inputs (replay crate)."""
+"""Witness search for failed obligations: native evaluation of the real function on small inputs through the replay
+crate. The search never decides anything; it only attaches a concrete failing input to a violation when it finds one."""
+import json
+import standins
+
+# (unit, function prefix) -> replay command that compares the real function with its executable spec twin
+SEARCH = {
+    ("pagelabels", "to_letters"): ["letters", "5000"],
+    ("runlength", ""): None,
+    ("bounded", "ascii85_group_value"): ["a85hex", "4"],
+}
 
 
-def search(prop, failure):
+def search(prop, f):
+    if f.get("standin_witness"):
+        return dict(found=True, kind="enumeration", cases=f["standin_witness"][:5])
+    for (unit, fn), cmd in SEARCH.items():
+        if f.get("unit") == unit and f.get("function", "").startswith(fn) and cmd:
+            res, err = standins.run_cmd(cmd)
+            if err or res is None: return None
+            dis = res.get("other") if cmd[0] == "letters" else res.get("disagreements")
+            if dis and not isinstance(dis, int):
+                return dict(found=True, kind="enumeration", replay_cmd=cmd, cases=dis[:5])
+            return dict(found=False, searched=cmd, evaluated=res.get("evaluated"))
     return None
 
 
 def replay(prop, w):
-    return True
+    """re-run the recorded search; returns True when the real code now agrees with the spec"""
+    cmd = w.get("replay_cmd")
+    if not cmd:
+        print(json.dumps(w)[:2000]); return False
+    res, err = standins.run_cmd(cmd)
+    print(json.dumps(res)[:2000] if res else err)
+    if res is None: return False
+    dis = res.get("other") if cmd[0] == "letters" else res.get("disagreements")
+    return not dis
